@@ -26,7 +26,7 @@ KEnd(p) == RecM([Name |-> Leaf(p \o ".Name"), Tags |-> AT(<<Leaf(p \o ".Tags[0]"
 KRec(p) == RecM([Name |-> Leaf(p \o ".Name"), Sub |-> KEnd(p \o ".Sub"),
                  Tags |-> AT(<<Leaf(p \o ".Tags[0]"), Leaf(p \o ".Tags[1]")>>, "strs"),
                  Inner |-> IRec(p \o ".Inner"), InnerPtr |-> IRec(p \o ".InnerPtr"), NilInner |-> Nil],
-                [Hello |-> Leaf(p \o ".Hello()"), Shout |-> Leaf(p \o ".Shout()")])
+                [Hello |-> Leaf(p \o ".Hello()"), Shout |-> Leaf(p \o ".Shout()"), Twin |-> KEnd(p \o ".Twin()")])
 RRec(p) == RecM([Name |-> Leaf(p \o ".Name"),
                  Kid |-> KRec(p \o ".Kid"), NilKid |-> Nil,
                  Kids |-> A(<<KRec(p \o ".Kids[0]"), KRec(p \o ".Kids[1]")>>),
